@@ -1652,7 +1652,11 @@ std::string Generator::GeneratorImpl::generateCode(const AnalyserEquationAstPtr 
     case AnalyserEquationAst::Type::PIECEWISE: {
         auto astRightChild = ast->rightChild();
 
-        if (astRightChild != nullptr) {
+        if (ast->leftChild() == nullptr) {
+            // A piecewise statement without any piece is not defined anywhere.
+
+            code = mProfile->nanString();
+        } else if (astRightChild != nullptr) {
             if (astRightChild->type() == AnalyserEquationAst::Type::PIECE) {
                 code = generateCode(ast->leftChild()) + generatePiecewiseElseCode(generateCode(astRightChild) + generatePiecewiseElseCode(mProfile->nanString()));
             } else {
